@@ -101,7 +101,9 @@ def corpus_defs(tier):
         dict(alpha=[0, 1, 0x40, 0x42, 0x44, 0x26], maxlen=5 if q else 7, cfg=True),
     ])
     # --- adts: header field combinations x buffer lengths, recovered from finished files ---------
-    d['adts'] = dict(trace='TraceMuxide', rand=[dict(gen='adts', n=0, rel='none', facets={'bytes': True, 'timing': False, 'tree': False, 'raw': False})])
+    d['adts'] = dict(trace='TraceMuxide', mc=[
+        _mc({}, module='MCOracles', invariants=('AdtsOK', 'OpusOK', 'Vp9OK'), properties=()),     # self-consistency of the ADTS / Opus / VP9 oracles
+    ], rand=[dict(gen='adts', n=0, rel='none', facets={'bytes': True, 'timing': False, 'tree': False, 'raw': False})])
     # --- layout: all codec x audio x metadata x layout configurations; tree + raw facets --------
     d['layout'] = dict(trace='TraceMuxide', rand=[dict(gen='layout', n=0, rel='meta', facets=F_ALL)])
     d['metalayout'] = dict(trace='TraceMuxide', rand=[dict(gen='metalayout', n=0, rel='layout', facets=None)])
